@@ -44,6 +44,17 @@ class Type(Scope):
     def get_children(self, public_only=False):
         tmp_list = copy.copy(self.children)
         tmp_list.extend(self.in_children)
+        if public_only:
+            # Drop PRIVATE components/bindings (attribute or PRIVATE statement of
+            # the type that declares them)
+            tmp_list = [
+                child
+                for child in tmp_list
+                if not (
+                    (child.vis < 0)
+                    or ((getattr(child.parent, "def_vis", 0) < 0) and (child.vis <= 0))
+                )
+            ]
         return tmp_list
 
     def resolve_inherit(self, obj_tree, inherit_version):
